@@ -23,7 +23,6 @@ use crate::framework::Violation;
 use crate::refwalk::WalkOpts;
 use crate::refwalk::Yield;
 use crate::refwalk::err_key;
-use crate::refwalk::reference_errors;
 use crate::refwalk::reference_walk;
 use crate::run::SchedOpts;
 use crate::run::SemOpts;
@@ -248,7 +247,19 @@ pub fn walk_oracles(
         .map(|e| err_key(&e))
         .collect();
       actual_errs.sort();
-      let expected_errs = reference_errors(shape, &roots, &o);
+      let (expected_errs, optional_errs) =
+        crate::refwalk::reference_errors_with_optional(shape, &roots, &o);
+      // reports the reference allows but does not require: drop the copies
+      // in excess of what is required, at most one per optional report
+      for k in &optional_errs {
+        let have = actual_errs.iter().filter(|e| *e == k).count();
+        let need = expected_errs.iter().filter(|e| *e == k).count();
+        if have > need {
+          if let Some(i) = actual_errs.iter().position(|e| e == k) {
+            actual_errs.remove(i);
+          }
+        }
+      }
       if which == "C15" && actual_errs != expected_errs {
         let missing: Vec<_> = expected_errs
           .iter()
@@ -287,7 +298,7 @@ pub fn walk_oracles(
           (Ok(()), true) => {}
           (Err(e), false) => {
             let k = err_key(e);
-            if !expected_errs.contains(&k) {
+            if !expected_errs.contains(&k) && !optional_errs.contains(&k) {
               violations.push(Violation {
                 property: "C02".into(),
                 oracle: "validate-error-is-reachable-failure".into(),
